@@ -845,6 +845,17 @@ func (sg *sioGen) msg(depth int, chain, top bool) interface{} {
 		// a decoy: shaped like a crew operation, not addressed to the captain
 		m["delete"] = []interface{}{sg.someID()}
 	}
+	if depth > 0 && chain && g.chance(0.2) {
+		// spawn, then greet: the machine emits the creation of a new machine followed by a message to
+		// it; the recipient does not exist when the greeting is emitted, it does when its turn comes
+		if id, ok := sg.freshID(); ok {
+			create := map[string]interface{}{"to": sio.CaptainMachine,
+				"update": map[string]interface{}{id: sioMachJSON(sg.cfg(), nil)}}
+			greet := map[string]interface{}{"tag": sg.tag(), "to": id}
+			m["then"] = []interface{}{create, greet}
+			return m
+		}
+	}
 	if depth > 0 {
 		n := []int{0, 0, 1, 1, 2, 2, 3}[g.intn(7)]
 		if n > 0 {
